@@ -1,7 +1,7 @@
 (* C16 — Datagram records are delivered at most once and only if authentic.
    Window-level theorems (dtlcp/replay.go, size selection in dtlcp/dtlcp.go, conn.go).
    Connection-level theorems (forgeries inert, only sent payloads) are in the second half. *)
-From V Require Import Model.Replay Proofs.ReplayProofs.
+From V Require Import Model.Replay Proofs.ReplayProofs Model.ReplayConn Proofs.ReplayConnProofs.
 Open Scope N_scope.
 
 (* for every configured size and every delivery sequence (duplicates, replays, any order):
@@ -40,6 +40,47 @@ Theorem C16_refines_set_window : forall cfg seqs,
   snd (run (conn_window cfg) seqs) = snd (spec_run (w_eff cfg) [] seqs).
 Proof. exact window_refines_set. Qed.
 Print Assumptions C16_refines_set_window.
+
+(* ------------------------------------------------------------------ connection level
+   On an established connection a datagram is either a genuine record of the current epoch
+   (Gen s: byte-identical to the record with sequence number s that the peer sent) or anything
+   else (Bogus: forged, bit-flipped, other epoch, malformed), which fails the epoch filter, the
+   framing checks or authentication (assumption: the AEAD / MAC-then-encrypt protection is
+   unforgeable) and is discarded before the window is consulted.  For every history, of any length: *)
+
+(* what is handed to the application at some position is the genuine record that arrived at that
+   position; nothing else is ever delivered and the connection never fails *)
+Theorem C16_conn_only_genuine : forall cfg its,
+  Forall2 (fun it o => match o with
+                       | Delivered s => it = Gen s
+                       | Nothing => True
+                       | Failed => False end) its (snd (conn_run (established cfg) its)).
+Proof. exact conn_only_genuine. Qed.
+Print Assumptions C16_conn_only_genuine.
+
+(* each payload at most once (and the Finished's number never again) *)
+Theorem C16_conn_at_most_once : forall cfg its,
+  NoDup (delivered (snd (conn_run (established cfg) its))) /\ ~ In 0 (delivered (snd (conn_run (established cfg) its))).
+Proof. exact conn_at_most_once. Qed.
+Print Assumptions C16_conn_at_most_once.
+
+(* a record that is not genuine never changes which later records are accepted: removing all of
+   them from the history leaves the window state and everything delivered as they were *)
+Theorem C16_conn_bogus_inert : forall cfg its,
+  fst (conn_run (established cfg) its) = fst (conn_run (established cfg) (filter is_gen its)) /\
+  delivered (snd (conn_run (established cfg) its)) = delivered (snd (conn_run (established cfg) (filter is_gen its))).
+Proof. exact conn_bogus_inert. Qed.
+Print Assumptions C16_conn_bogus_inert.
+
+(* a genuine record is delivered the first time it arrives whenever it is newer than everything
+   delivered so far or lies within the effective window behind the newest *)
+Theorem C16_conn_accept_rule : forall cfg its s,
+  let acc := 0 :: delivered (snd (conn_run (established cfg) its)) in
+  ~ In s acc ->
+  (maxl acc < s \/ maxl acc - s < w_eff cfg) ->
+  snd (conn_step (fst (conn_run (established cfg) its)) (Gen s)) = Delivered s.
+Proof. exact conn_accept_rule. Qed.
+Print Assumptions C16_conn_accept_rule.
 
 (* the hypotheses are satisfiable on a non-trivial history (size 160, records 64.. behind) *)
 Example C16_example :
